@@ -207,6 +207,17 @@ def expand(job):
         desc = recur.rand_recurrence(rnd, m, whole_anchor=True, maxn=rnd.choice([5, 6, 8]))
         while recur.float_class(desc):     # float accumulation in the iteration itself: C12's business (known finding there)
             desc = recur.rand_recurrence(rnd, m, whole_anchor=True, maxn=rnd.choice([5, 6, 8]))
+        rnd2 = random.Random(job["seed"] * 7919 + _)      # a stream of its own: the cases drawn from `rnd` stay what they were
+        if rnd2.random() < 0.25 and desc["fmt"] == 3 and desc["a"]["prec"] == "hms" and not desc["a"].get("dec"):
+            # month-end and leap-day starts with a month / year interval: every step clamps, so the i-th member is the
+            # i-th *iterated* point and not start + i * interval (31 Jan, 28 Feb, 28 Mar ... ; 29 Feb, 28 Feb, 28 Feb ...)
+            if m == "gregorian" and rnd2.random() < 0.4:
+                desc["a"] = dict(desc["a"], rep="cal", y=rnd2.choice([1996, 2000, 2004, 2024]), a=2, b=29)
+                desc["d"] = {"y": 1}
+            else:
+                desc["a"] = dict(desc["a"], rep="cal", a=rnd2.choice([1, 3, 5, 8, 10]), b=30 if m == "360day" else 31)
+                desc["d"] = {"mo": 1}
+            desc["n"] = rnd2.choice([4, 5, 6])
         if rnd.random() < 0.15 and desc["a"]["prec"] == "hms" and not desc["a"].get("dec") and desc["fmt"] != 1:
             # anchors at local midnight (a third of them in UTC): members then have a 24:00 spelling in their own zone
             desc["a"] = dict(desc["a"], hh=0, mi=0, ss=0)
